@@ -106,6 +106,9 @@ fn corpus_texts() -> Vec<String> {
             }
         }
     }
+    // a script that reads input itself (from a file / --eval its stdin is empty; on stdin the
+    // script has consumed everything): read_line must return the empty string, not hang
+    v.push("shout(\"before\")\nmake l get read_line(\"\")\nshout(l.len())\nshout(read_line(\"\") add \"|\")\n".to_string());
     // scripts around the 8 KiB read size of the CLI's stdin loop
     for target in [8191usize, 8192, 8193, 16_384, 16_385, 30_000] {
         let mut t = String::new();
